@@ -14,7 +14,7 @@ EXTENDS Naturals, Sequences, FiniteSets, TLC
 RECURSIVE MatchesG(_, _, _, _)
 MatchesG(f, n, one, some) ==
   IF f = <<>> THEN n = <<>>
-  ELSE IF Head(f) = some THEN TRUE
+  ELSE IF Head(f) = some THEN Len(f) = 1      \* '#' only as the last level (a filter with '#' elsewhere is invalid and matches nothing)
   ELSE IF n = <<>> THEN FALSE
   ELSE IF Head(f) = one THEN MatchesG(Tail(f), Tail(n), one, some)
   ELSE Head(f) = Head(n) /\ MatchesG(Tail(f), Tail(n), one, some)
